@@ -106,7 +106,12 @@ example : formatOK (bytesOf exText) (File.toNode ⟨⟨0, 23⟩, [⟨⟨3, 22⟩
     (bytesOf exText) (File.toNode ⟨⟨0, 23⟩, [⟨⟨3, 22⟩, .open ⟨⟨3, 22⟩, ⟨⟨3, 13⟩⟩, ⟨⟨19, 22⟩, false⟩⟩⟩]⟩) = true :=
   (C08_monitor_iff ex_parse ex_parse).mpr ⟨rfl, rfl⟩
 
-/-- … and rejects a tree whose account field points to other bytes -/
+/-- … `C08_monitor_sound` applies to it (the example is its own formatting) … -/
+example : ∃ f2, parseText "j.knut" (bytesOf exText) = .ok f2 ∧
+    formatOK (bytesOf exText) (File.toNode ⟨⟨0, 23⟩, [⟨⟨3, 22⟩, .open ⟨⟨3, 22⟩, ⟨⟨3, 13⟩⟩, ⟨⟨19, 22⟩, false⟩⟩⟩]⟩) (bytesOf exText) f2.toNode = true :=
+  C08_monitor_sound ex_parse (by decide)
+
+/-- … and the monitor rejects a tree whose account field points to other bytes -/
 example : formatOK (bytesOf exText) (File.toNode ⟨⟨0, 23⟩, [⟨⟨3, 22⟩, .open ⟨⟨3, 22⟩, ⟨⟨3, 13⟩⟩, ⟨⟨19, 22⟩, false⟩⟩⟩]⟩)
     (bytesOf exText) (File.toNode ⟨⟨0, 23⟩, [⟨⟨3, 22⟩, .open ⟨⟨3, 22⟩, ⟨⟨3, 13⟩⟩, ⟨⟨21, 22⟩, false⟩⟩⟩]⟩) = false := by
   decide
